@@ -107,20 +107,29 @@ def cls_name(c):
 # ---------------------------------------------------------------------------------------
 # structuring the trace: fold early exits so that sequencing is explicit
 
-def structure(block):
+def structure(block, inlined=False):
     """-> list of items: Op/New/Effect/Return/Opaque nodes, ('alt', cond, A, B, node), ('loop', node, B),
-    ('try', node, body, [handler blocks], orelse)."""
+    ('try', node, body, [handler blocks], orelse).  ``inlined``: the block is the body of a helper call, where ``return``
+    means "carry on after the call": ``if ok: return`` followed by a raise is the check ``if not ok: raise``."""
     out = []
     i = 0
     n = len(block)
     while i < n:
         nd = block[i]
         if isinstance(nd, Inline):
-            out.extend(strip_inner_returns(structure(nd.body)))
+            out.extend(strip_inner_returns(structure(nd.body, True)))
         elif isinstance(nd, Alt):
             rest = block[i + 1:]
             ta = terminates(nd.then)
             tb = terminates(nd.orelse)
+            if inlined and ta == 'return' and not tb and terminates(rest) == 'raise':
+                out.append(('check', Sym('not', nd.cond), structure(nd.orelse + rest, True), nd))
+                out.extend(strip_inner_returns(structure(nd.then, True)))
+                return out
+            if inlined and tb == 'return' and not ta and terminates(rest) == 'raise':
+                out.append(('check', nd.cond, structure(nd.then + rest, True), nd))
+                out.extend(strip_inner_returns(structure(nd.orelse, True)))
+                return out
             if ta and not tb:
                 if ta == 'raise':
                     out.append(('check', nd.cond, structure(nd.then), nd))
